@@ -63,7 +63,7 @@ func ChildMain(jobFile, outFile string) {
 		default:
 			r = Stress(j.Seed, j.Prog)
 		}
-		if d := os.Getenv("VERIF_DUMP_EVENTS"); d != "" && len(r.Violations) > 0 {
+		if d := os.Getenv("VERIF_DUMP_EVENTS"); d != "" && (len(r.Violations) > 0 || os.Getenv("VERIF_DUMP_ALL") != "") {
 			f, _ := os.Create(fmt.Sprintf("%s/events-%d-%d.txt", d, os.Getpid(), j.ID))
 			for _, e := range r.Events {
 				fmt.Fprintf(f, "%d g%d %s %s %v\n", e.Seq, e.G, e.Role, e.Point, e.Args)
@@ -383,6 +383,50 @@ func Run(c *core.Ctx) {
 			prog.Api = append(prog.Api, apiKinds[rng.Intn(len(apiKinds))])
 		}
 		add(Job{Mode: "stress", Seed: c.Seed*1000 + int64(i), Prog: prog, Src: "stress"})
+	}
+
+	// (hot group) one group is fed faster than a worker drains it while other groups keep the remaining
+	// workers busy: long uninterrupted runs of one work item (hundreds of callbacks) next to waiting work
+	for i := 0; i < c.Pick(6, 60); i++ {
+		prog := Program{Workers: 2 + rng.Intn(2), InCh: []int{0, 2}[rng.Intn(2)], Producers: map[string][]Sub{}, Shutdown: false, Cycles: 1}
+		if i%2 == 1 {
+			prog.Workers = 2
+		}
+		hot := []string{"g1", "g2", "g4"}[rng.Intn(3)]
+		mk := func(n int, groups []string, kinds []string) []Sub {
+			var subs []Sub
+			for k := 0; k < n; k++ {
+				subs = append(subs, Sub{Kind: kinds[rng.Intn(len(kinds))], Group: groups[rng.Intn(len(groups))]})
+			}
+			return subs
+		}
+		if i%2 == 0 {
+			prog.Producers["p1"] = mk(150+rng.Intn(250), []string{hot}, []string{"with", "withgroup", "call"})
+			prog.Producers["p2"] = mk(60+rng.Intn(60), []string{hot, hot, "g3"}, []string{"with", "withres", "get"})
+		} else {
+			// bursts that a worker runs through in one go, each followed by spaced single submissions
+			var p1, p2 []Sub
+			for b := 0; b < 3+rng.Intn(3); b++ {
+				p1 = append(p1, mk(34+rng.Intn(40), []string{hot}, []string{"with", "withgroup"})...)
+				// the burst ends with callbacks that hand work to another group while the other worker is busy
+				p1 = append(p1, Sub{Kind: "nested", Group: hot}, Sub{Kind: "nested", Group: hot})
+				for k := 0; k < 4+rng.Intn(6); k++ {
+					p1 = append(p1, Sub{Kind: "pause"}, Sub{Kind: "with", Group: hot, Slow: true})
+					p2 = append(p2, Sub{Kind: "pause"}, Sub{Kind: "withgroup", Group: hot, Slow: true}, Sub{Kind: "with", Group: "g3", Slow: k%2 == 0})
+				}
+			}
+			prog.Producers["p1"], prog.Producers["p2"] = p1, p2
+		}
+		prog.Producers["p3"] = mk(60+rng.Intn(60), []string{"g3", "par", "g1", "g2", "g4"}, []string{"with", "withres"})
+		if i%2 == 1 {
+			// slow callbacks elsewhere: the second worker is busy most of the time
+			p3 := mk(40+rng.Intn(40), []string{"g3", "par"}, []string{"with", "withres"})
+			for k := range p3 {
+				p3[k].Slow = true
+			}
+			prog.Producers["p3"] = p3
+		}
+		add(Job{Mode: "stress", Seed: c.Seed*1000 + 500 + int64(i), Prog: prog, Src: "hot"})
 	}
 
 	if d := os.Getenv("VERIF_DUMP_JOBS"); d != "" {
